@@ -398,6 +398,40 @@ func (ri *releaseInfo) releases(fn *ssa.Function, i int) bool {
 			}
 		}
 	}
+	if !res {
+		// through a local work list: the parameter is queued in a slice whose elements are drained into the pools
+	scan:
+		for _, b := range fn.Blocks {
+			for _, in := range b.Instrs {
+				ci, ok := in.(ssa.CallInstruction)
+				if !ok {
+					continue
+				}
+				cc := ci.Common()
+				var args []ssa.Value
+				if isPoolMethod(cc, "Put") {
+					args = cc.Args
+				} else if callee := cc.StaticCallee(); callee != nil && core.InModule(callee) && callee != fn {
+					for j, a := range cc.Args {
+						if _, direct := a.(*ssa.Parameter); !direct && ri.releases(callee, j) {
+							args = append(args, a)
+						}
+					}
+				}
+				for _, a := range args {
+					if _, direct := a.(*ssa.Parameter); direct {
+						continue
+					}
+					for _, q := range c09PathsOf(a) {
+						if q.root == ssa.Value(par) && len(q.steps) == 0 {
+							res = true
+							break scan
+						}
+					}
+				}
+			}
+		}
+	}
 	if res {
 		ri.memo[fn][i] = 1
 	} else {
@@ -782,6 +816,7 @@ func runC09(c *Ctx) {
 	c09ResultOwned(c, p)
 	c09CapturedNode(c, p)
 	c09ReleasedPartEscapes(c, p)
+	c09ReleasedOnceRule(c, p)
 	r.Rule("memoised-node", "a value memoised by sync.OnceValue / OnceValues whose type is an AST node is used only as the argument of a copying function (clone…, copy…, deepCopy…) or in a nil test")
 	if nm := c09MemoisedNode(c, p, p.ModuleFuncs(), nil); nm == 0 {
 		r.OK("memoised-node", "scan", "-", "no AST node is memoised with sync.OnceValue / OnceValues")
